@@ -5,6 +5,7 @@ import (
 	"reflect"
 
 	ht "github.com/ogen-go/ogen/http"
+	"github.com/ogen-go/ogen/ogenerrors"
 )
 
 func htErrNotImplemented() error { return ht.ErrNotImplemented }
@@ -102,3 +103,5 @@ func AsPtr(x any) any {
 	p.Elem().Set(v)
 	return p.Interface()
 }
+
+func errSkipClient() error { return ogenerrors.ErrSkipClientSecurity }
